@@ -1730,7 +1730,15 @@ fn run_scenario_inner(sc: &Scenario) -> Execution {
     let long_spins = sa + sy >= 50;
     let cfg = ExecCfg {
         schedule: sc.sched.clone(),
-        livelock: if long_spins { 600 * (sa + sy) } else { 4_000 },
+        // (freeze sweep: the threads that wait for the suspended one spin until this threshold in
+        // every one of the ~10^5 executions; being stuck is no finding there, so it is kept short)
+        livelock: if sc.opts.freeze.is_some() {
+            1_500 + 40 * (sa + sy)
+        } else if long_spins {
+            600 * (sa + sy)
+        } else {
+            4_000
+        },
         max_steps: if long_spins { sc.opts.max_steps.max(4_000 * (sa + sy)) } else { sc.opts.max_steps },
         weak_cas_fail: sc.opts.weak_cas,
         quarantine: sc.opts.quarantine,
